@@ -79,6 +79,21 @@ Fixpoint wrap_all (n : nat) (idx : list Z) : option (list nat) :=
   | i :: r => match wrap_ins n i, wrap_all n r with Some a, Some t => Some (a :: t) | _, _ => None end
   end.
 
+(* What np.insert does with an index vector, as far as it is modelled:
+   - every index in -n..n : wrapped positions (WOk);
+   - some index > n, or a SINGLE index < -n : IndexError (NumPy's bounds checks);
+   - two or more indices of which one is < -n : NOT MODELLED.  NumPy's multi-index path adds n once, leaves the index
+     negative and lets it wrap a second time silently (e.g. n = 3, [-4, 0] inserts at the END and the returned map
+     contains -1) or fails later with ValueError (shape mismatch).  This is outside the property's domain (positions
+     0..num_v); the models mark it with OtherError, histories exclude it (op_in_range) and the correspondence does not
+     compare it. *)
+Inductive wrapped := WOk (w : list nat) | WIndexError | WUnmodelled.
+Definition below_range (n : nat) (idx : list Z) : bool :=
+  (2 <=? length idx)%nat && existsb (fun i => (i <? - Z.of_nat n)%Z) idx.
+Definition wrap_indices (n : nat) (idx : list Z) : wrapped :=
+  if below_range n idx then WUnmodelled
+  else match wrap_all n idx with Some w => WOk w | None => WIndexError end.
+
 (* ---------------------------------------------------------------------------------------------- *)
 (* histories: operations refer to earlier results by their position in a pool of polylines          *)
 Inductive op (F : Type) :=
@@ -192,13 +207,19 @@ Section History.
     | o :: r => snd (step pl o) :: run (fst (step pl o)) r
     end.
 
-  (* index arguments in range: slice bounds within 0..num_v (all other arguments are unrestricted:
-     roll amounts any integer, insertion indices outside -n..n raise IndexError in both models) *)
+  (* index arguments in range: slice bounds within 0..num_v; insertion index vectors of two or more entries contain
+     no index below -num_v (see wrap_indices).  Everything else is unrestricted: roll amounts any integer, insertion
+     indices above num_v (and a single one below -num_v) raise IndexError in both models *)
   Definition op_in_range (pl : pool) (o : op F) : bool :=
     match o with
     | OpSliced a s t =>
         match nth_error pl a with
         | Some p => (s <=? length (pv p))%nat && (t <=? length (pv p))%nat
+        | None => true
+        end
+    | OpInsert a _ idx =>
+        match nth_error pl a with
+        | Some p => negb (below_range (length (pv p)) idx)
         | None => true
         end
     | _ => true
@@ -264,10 +285,11 @@ Section Spec.
   Definition s_insert (p : polyline F) (pts : list (vec3 F)) (idx : list Z)
     : result (polyline F * list nat * list nat) :=
     if negb (length pts =? length idx)%nat then Raise ValueError else
-    match wrap_all (length (pv p)) idx with
-    | None => Raise IndexError
-    | Some w => Ok (MkPolyline (spec_insert (pv p) w pts) (pclosed p),
-                    spec_orig_map (length (pv p)) w, spec_ins_map w)
+    match wrap_indices (length (pv p)) idx with
+    | WUnmodelled => Raise OtherError
+    | WIndexError => Raise IndexError
+    | WOk w => Ok (MkPolyline (spec_insert (pv p) w pts) (pclosed p),
+                   spec_orig_map (length (pv p)) w, spec_ins_map w)
     end.
   Definition s_index_of (p : polyline F) (pt : vec3 F) : result nat :=
     match spec_find_from 0 (pv p) pt with Some i => Ok i | None => Raise ValueError end.
@@ -294,3 +316,7 @@ Section Spec.
     MkImpl F spec_edges s_new s_flipped s_rolled s_sliced s_sectioned s_join s_insert s_index_of s_aligned
            s_apex s_bbox s_len.
 End Spec.
+
+(* componentwise order on real points (vocabulary of the bounding-box statement) *)
+From Coq Require Import Reals.
+Definition vle (a b : vec3 R) : Prop := (vx a <= vx b /\ vy a <= vy b /\ vz a <= vz b)%R.
